@@ -14,6 +14,15 @@ CHECKS = {
  "C17": ("exploration", "in-package invariant monitor + porcupine history check + race detector over seeded concurrent scenarios; server-side running-request counter at the public API",
          "≈30 k seeded concurrent scenarios per quick run inside internal/pqueue (holder-count upper bound, quiescence invariants, state-based deadlock predicate, linearizability of acquire/release histories against a counting semaphore, coverage counters proving that the cancel-vs-release hand-over branch ran) under -race, plus image/blob copies with per-host limits 1-3 where model registries count simultaneously running requests. Held on the interleavings produced, not all interleavings.",
          "The overlay test is compiled into /repo/internal/pqueue with go test -overlay (nothing written into /repo). Holder counter under-approximates; deadlock verdicts are state based. ocidir / regsync throttles reuse the same queue type and are not driven separately.", "§3 C17"),
+ "C03": ("exploration", "reference-model monitor: independent closure expectation vs raw target storage after real ImageCopy runs",
+         "1.5 k seeded copies per quick run (20 k thorough) over generated image graphs x pairings x pre-states x options x registry features x latency jitter / GOMAXPROCS; after every nil return the target's raw storage (model registry state / layout files) is compared byte-for-byte with an expectation computed from the generated graph by the statement's rules. Evidence reports distinct request arrival orders seen.",
+         "The model registry is harness code (raw state populated and read directly, never through the client). Requested referrers/digest-tags are required for every manifest of the source closure; descent into content stops at manifests the target already held unless force-recursive. Platform-filtered copies and sha512-without-digest-header registries are not generated.", "§3 C03"),
+ "C04": ("fault_enumeration", "server-side ordering monitor at every manifest PUT + per-request-position fault enumeration with raw-state audits",
+         "For 40 graphs (400 thorough) a clean run numbers the copy's requests; every position (up to 60 per graph in quick) is re-run with each of 12 fault kinds incl. context cancel and process death; children-before-parents is evaluated under the registry's state lock at every manifest PUT of every run, layout targets are audited from inside the source's request handler while the copy runs, and after every failed run the tag and repository-wide completeness are audited on raw state.",
+         "Faults act before request p is applied. Process death is modelled for registry targets as 'no request numbered >= p is applied'; crash points inside layout writes belong to C07. Subject edges are excluded from children-first. Completeness after an absorbed fault is demanded for the image's own content only.", "§3 C04"),
+ "C14": ("exploration", "request-log monitor at recording model registries (per-digest download/upload/mount counters) + directory fingerprint for layouts",
+         "1.2 k fault-free default-option copies per quick run with arbitrary layer/config sharing, every pre-state class and pairing; each minimality clause (no download of pre-existing blobs, each blob at most once, mount instead of transfer, retag = 1 manifest PUT and no blob traffic, identical target = no write) is judged on the registries' request logs; a run is inconclusive if a clause was never applicable.",
+         "Only fault-free default-option runs are judged. A blob GET counts as a download when answered 200/206 with a body.", "§3 C14"),
 }
 NOT_APPLICABLE = {}
 
